@@ -499,7 +499,7 @@ class Ctx:
             json.dump(ev, f, indent=1, default=str)
         shutil.rmtree(self.scratch, ignore_errors=True)
         self.log("done: evaluations=%d distinct=%d obligations=%d/%d violations=%d known=%d"
-                 % (cov["evaluations"], cov["distinct_nontrivial"], cov["discharged"], cov["obligations"],
+                 % (cov["evaluations"], cov["distinct_nontrivial"], cov.get("discharged", 0), cov.get("obligations", 0),
                     len(self.violations), len(self.known_hits)))
         return 1 if self.violations else 0
 
